@@ -65,9 +65,13 @@ class Ctx:
 
 
 def load_findings() -> list[dict]:
-    if not FINDINGS_FILE.exists():
-        return []
-    return json.loads(FINDINGS_FILE.read_text())["findings"]
+    """known_findings.json plus one optional file per property under known_findings.d/ (same format)."""
+    out = []
+    files = [FINDINGS_FILE] + sorted((ROOT / "known_findings.d").glob("*.json"))
+    for f in files:
+        if f.exists():
+            out += json.loads(f.read_text())["findings"]
+    return out
 
 
 class Report:
